@@ -114,4 +114,8 @@ MANIFEST_TEXT = {
     "C20": {"text": "Complete enumeration of fault points (operation index x {fails clean, fails after partial write, crash after, crash after partial write}) of the loop-free effect sequence of the real FilesWithBackupEmitter text against a recording file-system model; invariant checked after every operation.",
             "note": "FS model (write non-atomic, rename atomic) is assumed; contents from 4 short texts; Verus/Kani cannot execute Path/dyn Write code (measured), so this is native enumeration, not proof", "technique": "fault enumeration of the real function text against a file-system model (bounded stand-in for a contract proof)"},
 }
-NOT_APPLICABLE = []
+_PLANNED = {"C01": "U18 keyword/literal tables", "C02": "fixed-point clauses via U08/U09/U13/U14", "C03": "U10 lexclass + U11 safetynet", "C04": "U17 skip decision table",
+            "C08": "U07/U08/U09 whitespace units", "C09": "U20 style-edition gate scan", "C10": "U14 usemerge", "C11": "U12/U13 comparators", "C12": "U15 diff",
+            "C13": "U17 exclusion table", "C14": "U19 config", "C18": "U21 cargo-fmt", "C19": "U22 scan_diff"}
+NOT_APPLICABLE = [{"property_id": k, "reason": "not claimed at this commit: the unit that carries it (%s, DESIGN.md §3) is not built yet" % v}
+                  for k, v in sorted(_PLANNED.items()) if k not in PROPS]
